@@ -149,6 +149,33 @@ theorem add_zero (A : Address) (hA : A.WF) (wf : BusWF A.bus) (hrom : A.mapping.
   obtain ⟨A', h1, _, _, _, h5, _⟩ := add_rom A hA hrom _ 0 hp hstay
   rw [h1]; simp [h5, hback]
 
+/-- ... and gives back the very same address object (bus, cached mapping and value). -/
+theorem add_zero_same (A : Address) (hA : A.WF) (wf : BusWF A.bus) (hrom : A.mapping.RomWF)
+    (hwin : inWindow A.mapping.mask A.logical) : A.add 0 = some A := by
+  have hA' := hA
+  unfold Address.WF at hA
+  have hlo : A.mapping.lo ≤ bankOf A.logical := by
+    have := (wf _ _ hA).1; rwa [shr16] at this
+  have hp : A.physical = some ((Spec.offset A.mapping.range A.logical : Nat) : Int) :=
+    Mapping.physicalAddress_eq_offset _ hrom _ hlo hwin
+  have hback := Spec.address_offset A.mapping.range hrom.2 A.logical hlo hwin
+  have hstay : A.bus.mappingForBank ((Spec.address A.mapping.range (Spec.offset A.mapping.range A.logical + 0)) >>> 16) = some A.mapping := by
+    rw [Nat.add_zero, hback]; exact hA
+  obtain ⟨A', h1, _, h3, h4, h5, _⟩ := add_rom A hA' hrom _ 0 hp hstay
+  rw [h1]
+  congr 1
+  obtain ⟨b, l, m⟩ := A
+  obtain ⟨b', l', m'⟩ := A'
+  simp only at h3 h4 h5 hback
+  simp only [Nat.add_zero, hback] at h5
+  subst h3 h4 h5
+  rfl
+
+/-- a RAM address advanced by 0 is itself -/
+theorem add_zero_ram (A : Address) (hA : A.WF) (hram : A.mapping.ram = true) : A.add 0 = some A := by
+  have := add_ram A hA hram 0 A.mapping (by simpa [Address.WF] using hA)
+  simpa using this
+
 /-- Advancing by `m` then by `n` equals advancing by `m + n` (both steps staying in the mapped range). -/
 theorem add_add (A : Address) (hA : A.WF) (hrom : A.mapping.RomWF) (p m n : Nat)
     (hp : A.physical = some (p : Int))
